@@ -196,6 +196,42 @@ def run_all_classes(ctx):
             ctx.case(('cls', cf, M, L), is_nontrivial(M, L, nd), labels=['all-classes'])
 
 
+def run_interleaved(ctx):
+    """The provider of each association pulls fragments from its own generator while other associations' providers
+    do the same: consuming several encode() generators alternately must give each message the same fragments as
+    consuming it alone."""
+    import io
+    for M in (16, 40, 64, 1030):
+        for sources in (('bytes', 'bytes'), ('bytesio', 'bytesio'), ('file', 'bytesio', 'bytes')):
+            specs = [{'cf': (0x0001, 0x8020, 0x0021)[i % 3], 'fields': default_fields((0x0001, 0x8020, 0x0021)[i % 3], i),
+                      'data': dg.patterned(3 * (M - 6) + 5 + 17 * i, i + M)} for i in range(len(sources))]
+            case = {'interleaved': True, 'M': M, 'sources': list(sources)}
+            alone = []
+            for spec, src in zip(specs, sources):
+                msg = dg.build_msg(spec, src)
+                msg.set_length()
+                alone.append([bytes(v.data_value) for p in msg.encode(3, M) for v in p.data_value_items])
+            msgs = [dg.build_msg(spec, src) for spec, src in zip(specs, sources)]
+            for m in msgs:
+                m.set_length()
+            gens = [m.encode(3, M) for m in msgs]
+            got = [[] for _ in gens]
+            live = list(range(len(gens)))
+            while live:
+                for i in list(live):
+                    try:
+                        p = next(gens[i])
+                        got[i].extend(bytes(v.data_value) for v in p.data_value_items)
+                    except StopIteration:
+                        live.remove(i)
+            ctx.case(('interleaved', M, sources), True, labels=['interleaved-generators'],
+                     sample={'M': M, 'sources': sources, 'fragments': [len(a) for a in alone]})
+            if got != alone:
+                bad = [i for i in range(len(gens)) if got[i] != alone[i]]
+                ctx.fail('C06:interleaved', 'message %r (source %s, M=%d): fragments differ when its generator is consumed '
+                         'alternately with other messages\' generators' % (bad, [sources[i] for i in bad], M), case)
+
+
 def run_random(ctx, n):
     Ms = st.one_of(st.integers(7, 300), st.sampled_from([7, 8, 9, 64, 128, 1024, 16384, 65536, 2 ** 31, 2 ** 32 - 1]))
     strat = st.tuples(dg.message(max_data=900), Ms, st.integers(1, 255))
@@ -225,7 +261,7 @@ def run(ctx):
     ctx.rule = ('grid: every maximum PDU length M in the range x every data length within +-2 of k*(M-6), '
                 'k=0..4, plus 1 (message class and context id rotated), each through bytes / BytesIO / real '
                 'file and through DIMSEMessage.encode and Association.send; 2^k boundaries up to 2^32-1; all '
-                '23 classes; Hypothesis-random messages; non-trivial = >=2 data fragments or data length '
+                '23 classes; Hypothesis-random messages; several generators consumed alternately; non-trivial = >=2 data fragments or data length '
                 'within +-2 of a multiple of the fragment size; distinct by (part, class, M, L)')
     ctx.assumptions = ['several PDVs per PDU would be accepted', 'M < 7 outside the stated domain',
                        'command bytes compared with dsutils.encode(command_set) and parsed by vf/refcmd.py']
@@ -234,6 +270,7 @@ def run(ctx):
     parallel(ctx, run_grid, [{'m_lo': a, 'm_hi': b} for a, b in bands])
     run_all_classes(ctx)
     run_boundaries(ctx)
+    run_interleaved(ctx)
     if ctx.thorough:
         parallel(ctx, shard_random, [{'n': 5000} for _ in range(16)])
     else:
@@ -242,4 +279,11 @@ def run(ctx):
 
 def replay(case):
     warnings.simplefilter('ignore')
+    if case.get('interleaved'):
+        from ..common import Ctx
+        sub = Ctx('C06', 'quick', 1)
+        run_interleaved(sub)
+        for key, ent in sorted(sub.failures.items()):
+            raise Violation(key, ent['what'], ent['case'])
+        return
     check_case(case['spec'], case['M'], case['pc_id'])
